@@ -124,6 +124,7 @@ func runC10(k *kernel.K) {
 		}
 	}
 
+	illegalSettings := strings.HasPrefix(event, "garbage_from_") && w.Chance(1, 3)
 	// The terminating event.
 	provoke := func(e *H2End) {
 		// something for the relay to write towards the faulty side
@@ -144,14 +145,40 @@ func runC10(k *kernel.K) {
 			hw.scSys.Stall(false)
 			provoke(cl)
 		case "garbage_from_client":
-			cl.C.Inject(c10Garbage(k))
+			if illegalSettings {
+				cl.C.Inject(c10IllegalSettings(k))
+			} else {
+				cl.C.Inject(c10Garbage(k))
+			}
 		case "garbage_from_server":
-			sv.C.Inject(c10Garbage(k))
+			if illegalSettings {
+				sv.C.Inject(c10IllegalSettings(k))
+			} else {
+				sv.C.Inject(c10Garbage(k))
+			}
 		case "shutdown":
 			close(hw.closing)
 		}
 	}})
 	k.Drain()
+	if illegalSettings && strings.HasPrefix(event, "garbage_from_") && !strings.HasPrefix(state, "output_full") {
+		// (with a full output channel the relay may not even read the illegal frame: that is the
+		// known finding about blocked readers, judged by the checks below without extra traffic)
+		// The other endpoint goes on as if nothing had happened: a request (or response) head with
+		// a priority and some DATA, which the relay would have to fit into the illegal frame size.
+		k.Probe("illegal_max_frame_size_setting")
+		if d, _ := hw.done(); !d {
+			other := cl
+			if event == "garbage_from_client" {
+				other = sv
+			}
+			if !other.EOF && !other.RST {
+				other.Do(&H2Op{Kind: "headers", Stream: 1, HasPrio: true, Prio: http2.PriorityParam{Weight: 200}, Fields: []hpack.HeaderField{{Name: ":method", Value: "GET"}, {Name: ":scheme", Value: "https"}, {Name: ":authority", Value: "origin.test"}, {Name: ":path", Value: "/after"}}})
+				other.Do(&H2Op{Kind: "data", Stream: 1, Data: bodyBytes(1, 'z', 300), Pad: -1})
+			}
+			k.Drain()
+		}
+	}
 	bounded := "at network quiescence"
 	if d, _ := hw.done(); !d {
 		// The property allows a bounded time: give it a simulated minute.
@@ -194,6 +221,13 @@ func runC10(k *kernel.K) {
 		}
 	}
 	hw.cleanup()
+}
+
+// c10IllegalSettings is a well-formed SETTINGS frame that sets SETTINGS_MAX_FRAME_SIZE to a value
+// outside 16384..16777215 (a connection error, RFC 7540 section 6.5.2).
+func c10IllegalSettings(k *kernel.K) []byte {
+	v := []uint32{0, 1, 3, 100, 16383, 1 << 24}[k.W.Draw(6)]
+	return []byte{0, 0, 6, 4, 0, 0, 0, 0, 0, 0, 5, byte(v >> 24), byte(v >> 16), byte(v >> 8), byte(v)}
 }
 
 func c10Garbage(k *kernel.K) []byte {
